@@ -114,7 +114,7 @@ def run (cmd rest : String) : Option String :=
       let t ← parseTable tb
       let size ← parseRat a
       let mk ← parseOptMask mk
-      pure s!"{showExact (exactPruneM t (coordLen t) size mk)} # {showExact (exactPruneAW t (coordLen t) size mk)}"
+      pure (showExact (exactPruneM t (coordLen t) size mk))
     | _ => none
   | "inrange" =>
     -- num/den | table  →  as-written in-range test vs height test, per node
